@@ -25,7 +25,10 @@ RULE = (
     'gives back the same text and projection. content: strings, URLs and comments over printable ASCII, both quotes, '
     'backslash-free punctuation, line breaks and non-ASCII written literally or as hex escapes, under target encodings '
     'ascii/latin-1/utf-8. Non-trivial: the DOM holds a string/URL/identifier with a character outside [A-Za-z0-9_-], a '
-    'comment, came from an edit history or is a repository sheet; distinct by serialisation.'
+    'comment, came from an edit history or is a repository sheet; distinct by serialisation. hunt: literal sheets from the defect hunt '
+    '(attribute namespace equal to the default one, near-integral numbers, escaped quote of the other kind, unknown at-rules with '
+    'nested selectors and id hashes, an escape ending a comment, a comment before all in @import media), same oracles plus token '
+    'adjacency inside unknown rules.'
 )
 ASSUMPTIONS = [
     'identifiers consist of characters that need no escaping on output (the others are the listed finding F03-1, probed by a witness sub)',
@@ -409,3 +412,61 @@ SUBS = [
     Sub('content', check_content, strategy=content_case(), quick=3000, thorough=300000, shards_quick=8),
     Sub('ident', check_ident, enumerate=ident_cases, shards_quick=1, shards_thorough=1),
 ]
+
+
+# --------------------------------------------------------------------------- literal sheets from the defect hunt (own signature each)
+
+HUNT = [
+    ('attribute-namespace-equal-to-default', '@namespace p "u"; @namespace "u"; [p|b] { x: y }'),
+    ('near-integral-number', 'a { width: 0.0000001px; line-height: 1.0000001 } @media screen and (min-width: 0.0000001px) { b { top: 0 } }'),
+    ('escaped-double-quote-in-single-quotes', "a { content: 'a\\\"b' } c { top: 0 }"),
+    ('unknown-rule-selector-white-space', '@-moz-document url-prefix() { .a.b .c d:before { left: -22px } } e { top: 0 }'),
+    ('unknown-rule-hash-shortened', '@-moz-document url-prefix() { #aabbcc { color: #ddeeff } }'),
+    ('escape-ending-a-comment', '/* see \\2a/ x */ a { color: red }'),
+    ('import-media-comment-before-all', '@import "x" print, /*c*/ all; a { top: 0 }'),
+]
+
+
+def hunt_cases(tier):
+    for tag, text in HUNT:
+        yield {'tag': tag, 'text': text}
+
+
+def check_hunt(case, ctx):
+    saved = cssutils.log.raiseExceptions
+    cssutils.log.raiseExceptions = False
+    try:
+        with lib('parse'):
+            sheet = parser().parseString(case['text'])
+        ctx.case(case['text'], True, case)
+        try:
+            roundtrip_sheet(sheet, case['text'])
+        except Violation as v:
+            raise Violation('hunt:' + case['tag'], f'{v.sig}: {v.msg}')
+        if case['tag'].startswith('unknown-rule'):
+            # inside an unknown at-rule white space between tokens can be significant (.a.b versus .a .b): where the source has
+            # none, the output must have none, and the other tokens must be the same
+            def sig(text):
+                out = []
+                for t in cssutils.tokenize2.Tokenizer().tokenize(text):
+                    if t[0] == 'S':
+                        if out and out[-1] != ' ':
+                            out.append(' ')
+                    elif t[0] != 'COMMENT':
+                        out.append((t[0], t[1]))
+                return out
+
+            def glued(seq):
+                return [(a, b) for a, b in zip(seq, seq[1:]) if a != ' ' and b != ' ']
+
+            rule = [r for r in sheet.cssRules if r.type == r.UNKNOWN_RULE][0]
+            src = sig(case['text'][:case['text'].rindex('}') + 1] if case['text'].count('}') > 1 else case['text'])
+            out = sig(rule.cssText)
+            lost = [p for p in glued(src) if p not in glued(out) and p[0][1] not in '{};' and p[1][1] not in '{};']
+            if lost or [x for x in src if x != ' '][:len([x for x in out if x != ' '])] != [x for x in out if x != ' ']:
+                raise Violation('hunt:' + case['tag'], f'{case["text"]!r} is written {rule.cssText!r}: tokens written together in the source are separated or changed: {lost[:3]}')
+    finally:
+        cssutils.log.raiseExceptions = saved
+
+
+SUBS.append(Sub('hunt', check_hunt, enumerate=hunt_cases, shards_quick=1, shards_thorough=1))
